@@ -62,9 +62,16 @@ type epoch struct {
 }
 
 type accHist struct {
+	base      interface{} // keeps the object alive: its address cannot be reused within this execution
 	lastWrite *epoch
 	reads     map[int]epoch
 	typ       string
+}
+
+type ownerRec struct {
+	tid  int
+	base interface{} // keeps the object alive (no address reuse within an execution)
+	site string
 }
 
 type lockState struct {
@@ -105,8 +112,16 @@ type Sched struct {
 	cfg *Config
 	// sites at which a cross-thread access happened at a non-scheduling step (fixpoint input)
 	NewHot map[string]bool
+	// "<type>.<field>" keys of shared-typed objects / globals written under the scheduler that
+	// were not yet in Config.Written (fixpoint input)
+	NewWritten map[string]bool
+	// types of supposedly thread-local objects that were touched by a second thread (fixpoint input)
+	NewPromoted map[string]bool
+	owner       map[uintptr]ownerRec
 	// PreemptedConflict: some preemption separated two steps touching the same (base, field)
 	Steps int
+	// Unowned: this execution belongs to another worker's partition (set by Explore for the root)
+	Unowned bool
 }
 
 // Config controls which steps are scheduling points.
@@ -115,6 +130,14 @@ type Config struct {
 	// always scheduling points. Globals (nil base) always are.
 	AlwaysShared map[string]bool
 	HotSites     map[string]bool
+	// Written: "<type>.<field>" keys (shared types and globals) that some thread writes. A step
+	// is a scheduling point if it writes such a location or reads one that is in Written; reads of
+	// locations nobody writes commute with everything and need no scheduling point.
+	Written map[string]bool
+	// Promoted: types outside AlwaysShared one of whose objects was seen from two threads; from then
+	// on every access to objects of that type is recorded by the happens-before monitor (scheduling
+	// points are added per site through HotSites).
+	Promoted map[string]bool
 	// EverySite makes every instrumented step a scheduling point.
 	EverySite bool
 	// PoolFresh: when set, pool Get ignores pooled objects (choice owned by the caller).
@@ -146,15 +169,29 @@ func (s *Sched) isSchedPoint(site string, accs []Acc) bool {
 	if s.cfg.EverySite || len(accs) == 0 {
 		return true
 	}
-	if s.cfg.HotSites[site] {
-		return true
-	}
+	sched := s.cfg.HotSites[site]
 	for _, a := range accs {
-		if a.Base == nil || s.cfg.AlwaysShared[reflect.TypeOf(a.Base).String()] {
-			return true
+		typ := "global"
+		if a.Base != nil {
+			typ = reflect.TypeOf(a.Base).String()
+			if !s.cfg.AlwaysShared[typ] {
+				// other objects become scheduling points per site (HotSites) once an object of
+				// theirs is seen from two threads; promotion by type would turn every thread-local
+				// clone into a scheduling point
+				continue
+			}
+		}
+		key := typ + "." + a.Field
+		if a.Write {
+			sched = true
+			if !s.cfg.Written[key] {
+				s.NewWritten[key] = true
+			}
+		} else if s.cfg.Written[key] {
+			sched = true
 		}
 	}
-	return false
+	return sched
 }
 
 func (s *Sched) step(site string, accs []Acc) {
@@ -172,6 +209,7 @@ func leqEpoch(e epoch, vc []int) bool { return e.clock <= vc[e.tid] }
 func (s *Sched) record(t *thread, site string, accs []Acc, sched bool) {
 	for _, a := range accs {
 		var k accKey
+		typ := "global"
 		if a.Base == nil {
 			k = accKey{0, a.Field}
 		} else {
@@ -179,11 +217,30 @@ func (s *Sched) record(t *thread, site string, accs []Acc, sched bool) {
 			if v.Kind() != reflect.Ptr || v.IsNil() {
 				continue
 			}
-			k = accKey{v.Pointer(), a.Field}
+			ptr := v.Pointer()
+			k = accKey{ptr, a.Field}
+			typ = reflect.TypeOf(a.Base).String()
+			if !s.cfg.AlwaysShared[typ] && !s.cfg.Promoted[typ] {
+				// supposedly thread-local object: only track which thread owns it
+				o, seen := s.owner[ptr]
+				if !seen {
+					s.owner[ptr] = ownerRec{t.id, a.Base, site}
+					continue
+				}
+				if o.tid == t.id {
+					continue
+				}
+				// a second thread touches it: promote the type and both sites; the scenario is
+				// re-explored with full recording for this type (fixpoint)
+				s.NewPromoted[typ] = true
+				s.NewHot[o.site] = true
+				s.NewHot[site] = true
+				continue
+			}
 		}
 		h := s.hist[k]
 		if h == nil {
-			h = &accHist{reads: map[int]epoch{}, typ: typeOf(a.Base)}
+			h = &accHist{base: a.Base, reads: map[int]epoch{}, typ: typ}
 			s.hist[k] = h
 		}
 		me := epoch{t.id, t.vc[t.id], site, sched}
@@ -214,7 +271,9 @@ func (s *Sched) record(t *thread, site string, accs []Acc, sched bool) {
 				}
 			}
 			h.lastWrite = &me
-			h.reads = map[int]epoch{}
+			for tid := range h.reads {
+				delete(h.reads, tid)
+			}
 		} else {
 			h.reads[t.id] = me
 		}
@@ -356,7 +415,7 @@ func Run(bodies []func(), prefix []int, cfg *Config) *Sched {
 	}
 	s := &Sched{back: make(chan struct{}), prefix: prefix, cfg: cfg,
 		locks: map[*sync.Mutex]*lockState{}, onces: map[*sync.Once]*onceState{}, pools: map[*sync.Pool][]pooled{},
-		hist: map[accKey]*accHist{}, NewHot: map[string]bool{}}
+		hist: map[accKey]*accHist{}, NewHot: map[string]bool{}, NewWritten: map[string]bool{}, NewPromoted: map[string]bool{}, owner: map[uintptr]ownerRec{}}
 	for i := range bodies {
 		t := &thread{id: i, wake: make(chan struct{}), vc: make([]int, len(bodies))}
 		t.vc[i] = 1
@@ -524,9 +583,10 @@ func Explore(mk func() []func(), o ExploreOpts, check func(*Sched)) ExploreResul
 		if len(x.Points) > res.MaxPoints {
 			res.MaxPoints = len(x.Points)
 		}
-		if depth > 0 || o.Owns == nil || o.Owns(-1) {
-			check(x)
-		}
+		// the root execution is run by every worker (its children are partitioned); only the
+		// owner evaluates it, but everybody must see it (fixpoint inputs such as NewWritten)
+		x.Unowned = depth == 0 && o.Owns != nil && !o.Owns(-1)
+		check(x)
 		pre := 0
 		for i := 0; i < len(x.Points); i++ {
 			p := x.Points[i]
